@@ -7,6 +7,8 @@
     writer.partition_on_columns   -> gen_dir_path / gen_relname   (directory naming only: the `path = join_path(...)` and
                                                                    `relname = join_path(path, partname)` statements)
     util.val_from_meta            -> gen_bool_true_texts     (inventory: the texts the bool branch accepts as True)
+                                     gen_val_from_meta       (the dispatch: categorical / datetimetz / bool / numpy scalar, the ValueError handler)
+    core.read_row_group           -> gen_row_partitions / gen_row_value / gen_row_cell   (the partition-column fill)
     util.metadata_from_many       -> gen_verify_raises       (verify_schema: which files are compared with which, by `!=` on the lists of
                                                               SchemaElement objects - not on a rendering of them)
     util.metadata_from_many       -> gen_fast_rel            (fast path only: the relative path `f[len(basepath):].lstrip("/")` stored in
@@ -23,8 +25,9 @@
 Output: Gen/GenPaths.v (logical root PqGen) over the vocabulary of coq/theories/Impl/Partition.v (str = list ascii, split_on,
 join_with, join_path, parse_int, lower, mem_str, value, ...) and coq/theories/Impl/PyPaths.v (py_find_break, py_format,
 py_rsplit1_head, py_is_timestamp, py_isoformat, py_str).  The theorems of coq/genproofs/GenPathsProofs.v are re-proved on this
-text on every run.  FAIL CLOSED: any construct outside the fragment below raises Unsupported with the source location; the
-check then falls back to the hand model + correspondence and records `translator_fallback`.
+text on every run.  FAIL CLOSED, PER FUNCTION (translate_units): every function above is a unit; a construct outside the fragment below
+raises Unsupported with the source location for THAT unit (and the units that call it) only - the check leaves it to the hand model +
+correspondence, records `translator_fallback` with the reason, and compiles the proof blocks (`(* @needs unit ... *)`) of the other units.
 
 Fragment
   types        str | list str | list (list str) | list (A * B) | nat | bool | value | list value | option str (parameter `root`)
